@@ -50,6 +50,7 @@ def run(ctx):
     ctx.rule("R8.local-poll", "single-threaded poll_wait: notification consumed first; register only while unset; the auto-reset signal is consumed exactly on the Ready arm", floor=4)
     ctx.rule("R9.pending-after-register", "all four poll_wait: a Pending result is produced only after AwaiterSet::register was called with the waker handed to THIS poll (a re-poll with a new waker must replace the stored one)", floor=4)
     ctx.rule("R10.one-consumption-per-poll", "auto-reset poll_wait: a second attempt to consume a signal (try_wait / take_notification) is made only when the previous attempt on that path returned false: one wait never swallows two signals", floor=6)
+    ctx.rule("R11.flag-word-bitwise", "the manual-reset event's state word carries two independent flags (IS_SET, HAS_WAITERS): every write is a bit-wise read-modify-write (fetch_or / fetch_and / compare_exchange), never a whole-word store or swap that would wipe the other flag", floor=4)
     ctx.rule("R7.awaiter-list-discipline", "generation stamped only on fresh tail-link; waker set before WAITING; NOTIFIED/IDLE after unlink; prior-generation test on the head", floor=6)
 
     for mod, sigconst in MODS:
@@ -252,6 +253,7 @@ def run(ctx):
 
     local_rules(ctx, prog)
     poll_rules(ctx, prog)
+    flag_word_rule(ctx, prog)
     # ---------------- R7 awaiter_set
     reg = prog.one("AwaiterSet::register")
     if reg is None:
@@ -603,3 +605,19 @@ def poll_rules(ctx, prog):
 
 def _ordinal(cons, bb):
     return [x for x, _ in sorted(cons, key=lambda c: c[1]["span"]["line"])].index(bb)
+
+
+def flag_word_rule(ctx, prog):
+    n = 0
+    for b in prog.bodies:
+        if not b.key.startswith("events::manual::EventInner::") or "::tests" in b.key:
+            continue
+        for e in state_events(b, "manual"):
+            if e["op"] == "load":
+                continue
+            n += 1
+            ok = e["op"] in ("fetch_or", "fetch_and", "compare_exchange", "compare_exchange_weak", "fetch_xor")
+            ctx.ob("R11.flag-word-bitwise", f"manual.{b.key.split('EventInner::')[-1]}.{e['op']}{e['vals']}", ok, b.loc(e["term"]["span"]),
+                   f"`{e['op']}` on the flag word" + ("" if ok else ": a whole-word write also clears/sets the OTHER flag - e.g. reset() wiping HAS_WAITERS makes the next set() skip the waiters"))
+    if n == 0:
+        ctx.missing("R11.flag-word-bitwise", "atomic writes on events::manual::EventInner::state")
